@@ -123,7 +123,7 @@ def work(shard):
         f, k = check_selection(names, via_main)
         out["dicts"] += 1
         out["solves"] += 2 * len(names)
-        if any(n in ("x_no_prune", "g_1", "m_1", "b2", "lp", "d_p1") for n in names) and len(names) >= 2:
+        if any(n in ("x_no_prune", "g_1", "m_1", "b2", "nf", "lp", "d_p1") for n in names) and len(names) >= 2:
             out["nontrivial"] += 1
         for x in f:
             out["n_violations"] += 1
@@ -141,8 +141,8 @@ def work(shard):
     return out
 
 
-RULE = ("alphabet of 9 named games (5 solvable incl. the paper's figure 5.5, a 42-state board game a game with a Player-1 state whose moves are all dead and a game whose pruned and unpruned runs differ without any dead state; two games carry their own 'prune_states' entry, 2 unsolvable when pruned, 2 malformed: "
-        "negative reward / None transition list; the names 'x' and 'x_no_prune' collide on purpose); every ordered selection of 0..k distinct "
+RULE = ("alphabet of 10 named games (5 solvable incl. the paper's figure 5.5, a 42-state board game a game with a Player-1 state whose moves are all dead and a game whose pruned and unpruned runs differ without any dead state; two games carry their own 'prune_states' entry, 2 unsolvable when pruned, 3 malformed: "
+        "negative reward / None transition list / no final state; the names 'x' and 'x_no_prune' collide on purpose); every ordered selection of 0..k distinct "
         "games is one batch history, run through run_games (and in thorough also through main -f FILE -s and the report); every entry must "
         "equal the solo solve of that game computed in a forked fresh process; non-trivial = a selection of >= 2 games containing a failing one")
 ASSUME = ["solo reference results computed once per run in a forked child process",
